@@ -24,35 +24,48 @@ def text_of(inp, lo=None, hi=None):
         return repr(b)
 
 
+def ctx_class(unit, kind):
+    """Neighbours are named by class in a signature (punctuators by spelling: they are what longest match depends on)."""
+    if unit in ("^", "$"):
+        return unit
+    if kind in TRIVIA:
+        return {"Whitespace": "ws", "LineTerminator": "lt"}.get(kind, "cmt")
+    first = unit.split("+")[0]
+    if first.startswith("p."):
+        return first
+    if first.startswith("re."):
+        return "re"
+    if first.startswith("tmpl."):
+        return ".".join(first.split(".")[:2])
+    return first.split(".")[0]
+
+
 def classify(f):
-    """A specific signature for a rejected event: which neighbours, what differs."""
+    """(context, construct, what differs, event) for a rejected event; judge() turns them into a signature."""
     tr = f["trace"]
     o = tr[0]
     ev = next((x for x in tr if x["i"] == f["i"]), {})
     idx = f["i"] - 1                      # 0-based index of the report
     units = o.get("units") or []
     ek = o.get("ek") or []
+    here = units[idx] if idx < len(units) else "$"
+    prev = ctx_class(units[idx - 1], ek[idx - 1]) if 0 < idx <= len(units) else "^"
     if ev.get("out") != "ret":
-        return "jstok/panic/%s" % (units[idx] if idx < len(units) else "?"), ev
+        return prev, here, "panic", ev
     # all-input invariants first
     if ev.get("cls") in ("kw", "punct", "op") and ev.get("text") != ev.get("canon"):
-        return "jstok/canonical-spelling/%s-has-text-%s" % (ev.get("kname"), text_of(ev.get("text"))), ev
+        return "", "canonical-spelling", "%s-has-text-%s" % (ev.get("kname"), text_of(ev.get("text"))), ev
     if ev.get("kname") in ("Comment", "CommentLineTerminator"):
         b = bytes(ev.get("text") or [])
         has = any(x in b for x in (b"\n", b"\r", b"\xe2\x80\xa8", b"\xe2\x80\xa9"))
         if has != (ev["kname"] == "CommentLineTerminator"):
-            return "jstok/comment-line-terminator/%s-%s-one" % (ev["kname"], "with" if has else "without"), ev
+            return "", "comment-line-terminator", "%s-%s-one" % (ev["kname"], "with" if has else "without"), ev
     if o.get("free"):
-        return "jstok/free/unexplained", ev
-    prev = units[idx - 1] if 0 < idx <= len(units) else "^"
-    # separators are named by kind in the signature, significant units by atom
-    if 0 < idx <= len(ek) and ek[idx - 1] in TRIVIA:
-        prev = prev.split(".")[0]
+        return "", "free", "unexplained", ev
     if idx >= len(ek):
-        return "jstok/%s|$/%s" % (prev, "extra-token:%s" % ev.get("kname") if not ev.get("err") else "error-instead-of-end"), ev
-    here = units[idx] if idx < len(units) else "?"
-    if ek[idx] in TRIVIA:
-        here = here.split(".")[0] if ek[idx] in ("Whitespace", "LineTerminator") else here
+        return prev, "$", ("extra-token:%s" % ev.get("kname") if not ev.get("err") else "error-instead-of-end"), ev
+    if ek[idx] in ("Whitespace", "LineTerminator"):
+        here = here.split(".")[0] + "." + here.split(".")[1]
     if ev.get("err"):
         what = "end-of-input" if ev.get("eof") else "error:" + (ev.get("etext") or "").split(" on line")[0].replace(" ", "-")[:40]
     elif ev.get("pre") != o["epre"][idx]:
@@ -60,12 +73,29 @@ def classify(f):
     elif ev.get("lo") == o["elo"][idx] and ev.get("hi") == o["ehi"][idx]:
         what = "kind:%s-expected-%s" % (ev.get("kname"), ek[idx]) if ev.get("kname") != ek[idx] else "text-not-the-input-bytes"
     elif ev.get("lo") == o["elo"][idx] and ev.get("hi") > o["ehi"][idx]:
-        what = "merged-with-next:%s" % ev.get("kname")
+        nxt = ctx_class(units[idx + 1], ek[idx + 1]) if idx + 1 < len(units) else "$"
+        what = "merged-with-next:%s:%s" % (nxt, ev.get("kname"))
     elif ev.get("lo") == o["elo"][idx]:
         what = "split:%s" % ev.get("kname")
     else:
         what = "misplaced:%s" % ev.get("kname")
-    return "jstok/%s|%s/%s" % (prev, here, what), ev
+    return prev, here, what, ev
+
+
+def signatures(fails):
+    """jstok/<context>|<construct>/<what differs>; the context (class of the preceding unit) is '*' when the same
+    construct fails in the same way after three or more different contexts (the context is then not the mechanism)."""
+    cl = [classify(f) for f in fails]
+    ctxs = {}
+    for prev, here, what, _ in cl:
+        ctxs.setdefault((here, what), set()).add(prev)
+    out = []
+    for prev, here, what, ev in cl:
+        if prev == "":
+            out.append(("jstok/%s/%s" % (here, what), ev))
+        else:
+            out.append(("jstok/%s|%s/%s" % ("*" if len(ctxs[(here, what)]) >= 3 else prev, here, what), ev))
+    return out
 
 
 def open_record(o):
@@ -86,8 +116,7 @@ def rerun(ck, records):
 
 def judge(ck, fails, origin):
     first = {}
-    for f in fails:
-        sig, ev = classify(f)
+    for f, (sig, ev) in zip(fails, signatures(fails)):
         if sig in ck.violations or sig in ck.known_hits:
             ck.violation(sig, "", {})
             continue
